@@ -477,6 +477,9 @@ func sm9Ops() []*opDef {
 					return obs{bad: fmt.Sprintf("len(RA)=%d", len(ra))}
 				}
 				out := append([]byte{}, ra...)
+				if s := runInterlude(func(r io.Reader) error { _, err := ke.InitKeyExchange(r, hidKX); return err }); s != "" {
+					return obs{bad: s}
+				}
 				key, _, err := ke.ConfirmResponder(append([]byte{}, f.rFixOnA...), nil)
 				if err != nil {
 					return obs{bad: "ConfirmResponder after InitKeyExchange: " + err.Error()}
@@ -510,6 +513,12 @@ func sm9Ops() []*opDef {
 					return obs{bad: fmt.Sprintf("len(RB)=%d len(SB)=%d", len(rb), len(sb))}
 				}
 				out := concat(rb, sb)
+				if s := runInterlude(func(r io.Reader) error {
+					_, _, err := ke.RespondKeyExchange(r, hidKX, append([]byte{}, f.rFixOnB...))
+					return err
+				}); s != "" {
+					return obs{bad: s}
+				}
 				key, err := ke.ConfirmInitiator(nil)
 				if err != nil {
 					return obs{bad: "ConfirmInitiator after RespondKeyExchange: " + err.Error()}
@@ -685,6 +694,6 @@ var (
 )
 
 func allOps() []*opDef {
-	opsOnce.Do(func() { opsAll = append(sm2Ops(), sm9Ops()...) })
+	opsOnce.Do(func() { opsAll = append(sm2Ops(), sm9Ops()...); opsAll = append(opsAll, withFailedRepeat(opsAll)...) })
 	return opsAll
 }
